@@ -128,7 +128,7 @@ def hostile_name(t, ctx, fsroot, depth_hint):
         ctx.probe("name:existing-file")
         return b"existing"
     if k == 7:
-        return t.pick([b"CON", b"nul", b"Im1", b"Identity-H", b"H", b"EUC-H"], "name.plain")
+        return t.pick([b"CON", b"nul", b"Im1", b"Identity-H", b"H", b"EUC-H", b"inline-00000000", b"inline-existing"], "name.plain")
     if k == 8:
         ctx.probe("name:dotdot")
         return b"..\\..\\bait\\evil" if t.coin(30) else b"....//....//bait/evil"
